@@ -304,7 +304,7 @@ def generic_run(ctx, prop, kinds, n_quick, n_thorough, extra_cases=None, types=N
     tier = ctx.tier
     n = n_quick if tier == 'quick' else n_thorough
     cases = load_corpus_file()
-    cases += corpus_cases(1 if tier == 'quick' else 2, cap=120 if tier == 'quick' else 1500, types=types)
+    cases += corpus_cases(1 if tier == 'quick' else 2, cap=300 if tier == 'quick' else 1500, types=types)
     cases += gen_cases(ctx.seed, n, kinds, types=types, salt=prop)
     if extra_cases:
         cases += extra_cases
